@@ -5,7 +5,7 @@ using namespace vf;
 static std::string chk(const Regs &a, const Op &o, const Regs &b, Inst &I) { return latchRules(a, o, b, I); }
 static bool ntPred(const Hist &h) { return h.mssRises >= 2; }
 
-static std::string replayOps(const Replay &r) { return runWalk(opsDec(r.get("ops")), (int) r.num("queue", 2), chk); }
+static std::string replayOps(const Replay &r) { return runWalk(opsDec(r.get("ops")), (int) r.num("queue", 2), chk, nullptr, (int) r.num("mode", 0)); }
 static void fail(const Opt &o, Ev &ev, const std::vector<Op> &path, int queue, const std::string &m) {
     failEnum(o, ev, "ops", fmt("queue=%d\nops=%s\n", queue, opsEnc(path).c_str()), m);
 }
@@ -75,8 +75,10 @@ static void runSequences(const Opt &o, Ev &ev) {
 static std::string bodyWalk(Src &s, Ev &ev) {
     int queue = (int) s.range(1, 4);
     std::vector<Op> ops = decodeWalk(s, 200);
+    int mode = s.prob(1, 3) ? 1 : 0;                         // the service-request callback reports that it could not deliver the request
     Hist h;
-    std::string m = runWalk(ops, queue, chk, &h);
+    std::string m = runWalk(ops, queue, chk, &h, mode);
+    if (mode) ev.label("walk-control-callback-returns-error");
     ev.eval(ops.size());
     ev.label("walk-ops", ops.size());
     ev.label("walk-mss-rises", (uint64_t) h.mssRises);
